@@ -5,7 +5,7 @@ from urllib.parse import urljoin
 from xml.etree import ElementInclude as xinclude
 from xml.etree import ElementTree as etree
 
-from xsdata.exceptions import XmlHandlerError
+from xsdata.exceptions import ParserError, XmlHandlerError
 from xsdata.formats.dataclass.parsers.mixins import XmlHandler, delay_end_events
 from xsdata.models.enums import EventType
 from xsdata.utils import namespaces
@@ -40,7 +40,7 @@ class XmlEventHandler(XmlHandler):
             xinclude.include(root, loader=loader)
             ctx = iterwalk(root, {})
         else:
-            ctx = etree.iterparse(source, EVENTS)  # nosec
+            ctx = tokenize(etree.iterparse(source, EVENTS))  # nosec
 
         return self.process_context(ctx, ns_map)
 
@@ -113,6 +113,33 @@ class XmlEventHandler(XmlHandler):
             result[prefix] = uri
 
         return result
+
+
+def tokenize(context: Iterator[tuple[str, Any]]) -> Iterator[tuple[str, Any]]:
+    """Iterate the pull parser events and convert its value errors.
+
+    The expat parser raises plain value errors for the encodings it
+    can't decode, e.g. multi-byte encodings are not supported.
+
+    Args:
+        context: The iterparse events iterator
+
+    Yields:
+        An iterator of events
+
+    Raises:
+        ParserError: If the pull parser fails with a ValueError
+    """
+    iterator = iter(context)
+    while True:
+        try:
+            item = next(iterator)
+        except StopIteration:
+            return
+        except ValueError as e:
+            raise ParserError(e)
+
+        yield item
 
 
 def iterwalk(element: etree.Element, ns_map: dict) -> Iterator[tuple[str, Any]]:
